@@ -60,6 +60,19 @@ def ref_interp_bytes(fd, span):
         return None
 
 
+def eff(case):
+    """the field definition with the span the field object HAS when it is read: a case may move the span after construction
+    through the public starting_position / ending_position setters ("respan": [start or None, end or None]); the property
+    speaks of the field's span [starting_position, ending_position), whatever size the field was declared with"""
+    fd = case["fd"]
+    rs = case.get("respan")
+    if not rs:
+        return fd
+    s = fd["start"] if rs[0] is None else rs[0]
+    e = fd["start"] + fd["size"] if rs[1] is None else rs[1]
+    return dict(fd, start=s, size=e - s)
+
+
 class CHECK(Check):
     pid = "C03"
     entry = "LINE"
@@ -73,7 +86,11 @@ class CHECK(Check):
             "negative classes; (d) sequences of 2-4 reads through one field object, valid and invalid interleaved (slot "
             "carry-over). Each case is read through a one-field Line (positional) so the field's slot is observed too. "
             "non-trivial = span is non-empty and not all blanks; distinct = case hash"
-            " Later additions: ambiguous date-format lists x 2-4 reads through one field; numeric binary widths 1/3/5/6; valid spans with hostile byte surroundings.")
+            " Later additions: ambiguous date-format lists x 2-4 reads through one field; numeric binary widths 1/3/5/6; valid spans with hostile byte surroundings;"
+            " (e) fields whose span was moved after construction through the public starting_position / ending_position setters "
+            "(narrowed, widened, shifted, start only / end only / both; so ending_position != starting_position + declared size), "
+            "int/literal/float/date on str lines and literal/date on bytes lines, 1-3 reads, the characters just outside the new span "
+            "being value-changing ones (digits, exponents, date tails).")
 
     def gen(self, tier, rng):
         maxlen = 3 if tier == "quick" else 4
@@ -191,6 +208,38 @@ class CHECK(Check):
                         body = [rng.getrandbits(8) for _ in range(ln)]
                     lines.append(body)
                 yield {"fd": fd, "lines": lines, "bytes": True}
+        # (e) the span of a constructed field moved through the public setters: the read follows [starting_position,
+        # ending_position) as they ARE at the time of the read, not the declared size
+        for _ in range(1500 if tier == "quick" else 30000):
+            fd = fl.gen_field(rng, start=rng.randint(0, 4))
+            s0, e0 = fd["start"], fd["start"] + fd["size"]
+            mode = rng.choice(["narrow", "narrow", "widen", "start", "both", "shift"])
+            if mode == "narrow":
+                rs = [None, rng.randint(s0 + 1, e0 - 1) if e0 - s0 > 1 else e0 + 1]
+            elif mode == "widen":
+                rs = [None, e0 + rng.randint(1, 4)]
+            elif mode == "start":
+                rs = [rng.choice([x for x in range(0, e0) if x != s0] or [s0 + 1]), None] if e0 - s0 > 1 or s0 else [None, e0 + 2]
+            elif mode == "both":
+                a = rng.randint(0, e0 + 2)
+                rs = [a, a + rng.randint(1, fd["size"] + 2)]
+            else:
+                d = rng.choice([-1, 1, 2, 3]) if s0 else rng.choice([1, 2, 3])
+                rs = [s0 + d, e0 + d]
+            case = {"fd": fd, "lines": [], "bytes": False, "respan": rs}
+            efd = eff(case)
+            for _ in range(rng.choice([1, 1, 2, 3])):
+                # a line built for the declared span or for the moved one, then continued with characters that would change
+                # the value if they were (wrongly) taken in
+                l = self.gen_line(rng, rng.choice([fd, efd, efd]))
+                if rng.random() < 0.6:
+                    l = l.ljust(efd["start"] + efd["size"]) if rng.random() < 0.5 else l
+                    l += rng.choice(["7", "12", "e5", "5 ", ".5", " 12:30", "x"])
+                case["lines"].append(l)
+            if fd["k"] in ("lit", "date") and rng.random() < 0.25 and all(ord(c) < 128 for l in case["lines"] for c in l):
+                case["lines"] = [[ord(c) for c in l] for l in case["lines"]]
+                case["bytes"] = True
+            yield case
 
     @staticmethod
     def gen_line(rng, fd):
@@ -233,6 +282,12 @@ class CHECK(Check):
         from cfinterface.components.line import Line
         f = fl.mk_field(case["fd"])
         line = Line([f], storage="BINARY" if case["bytes"] else "TEXT")
+        rs = case.get("respan")
+        if rs:
+            if rs[0] is not None:
+                f.starting_position = rs[0]
+            if rs[1] is not None:
+                f.ending_position = rs[1]
         out = []
         for l in case["lines"]:
             arg = bytes(l) if case["bytes"] else l
@@ -246,7 +301,9 @@ class CHECK(Check):
         return out
 
     def model_arg(self, case):
-        ctor = [[[fl.field_sx(case["fd"]), []]], [], [], case["bytes"]]
+        # a read's result depends only on the line and the span the field has when it is read: the model field is the one
+        # declared with that span
+        ctor = [[[fl.field_sx(eff(case)), []]], [], [], case["bytes"]]
         ops = []
         for l in case["lines"]:
             ops.append([4, l])
@@ -260,7 +317,7 @@ class CHECK(Check):
         return out
 
     def oracle(self, case, obs):
-        fd = case["fd"]
+        fd = eff(case)
         s, e = fd["start"], fd["start"] + fd["size"]
         for l, o in zip(case["lines"], obs):
             if "raised" in o:
@@ -278,7 +335,7 @@ class CHECK(Check):
         return None
 
     def nontrivial(self, case, obs):
-        fd = case["fd"]
+        fd = eff(case)
         sp = case["lines"][0][fd["start"]: fd["start"] + fd["size"]]
         if case["bytes"]:
             return len(sp) > 0 and any(b != 32 for b in sp)
@@ -286,9 +343,14 @@ class CHECK(Check):
 
     def classify(self, case):
         d = {"kind_" + case["fd"]["k"]: 1, "bytes" if case["bytes"] else "str": 1, "reads_%d" % len(case["lines"]): 1}
-        fd = case["fd"]
+        fd = eff(case)
         if any(len(l) < fd["start"] + fd["size"] for l in case["lines"]):
             d["short_line"] = 1
+        rs = case.get("respan")
+        if rs:
+            d["span_moved_by_setters"] = 1
+            d["span_moved_" + ("start_only" if rs[1] is None else "end_only" if rs[0] is None else "both")] = 1
+            d["span_%s_than_declared" % ("narrower" if fd["size"] < case["fd"]["size"] else "wider" if fd["size"] > case["fd"]["size"] else "same_width")] = 1
         return d
 
     def signature(self, case, why):
@@ -302,7 +364,7 @@ class CHECK(Check):
                 yield c
 
     def neighbours(self, case, rng):
-        fd = case["fd"]
+        fd = eff(case)
         for l in case["lines"]:
             for pre in ("", "9" * fd["start"], "-" * fd["start"]):
                 if not case["bytes"]:
